@@ -28,9 +28,9 @@ func (l *filterRuleList) addRule(fr *filterRule) {
 }
 
 // exclude.c:check_filter
-func (l *filterRuleList) matches(name string) bool {
+func (l *filterRuleList) matches(name string, isDir bool) bool {
 	for _, fr := range l.Filters {
-		if fr.matches(name) {
+		if fr.matches(name, isDir) {
 			// the first matching rule decides; an include rule keeps the entry
 			return fr.flag&filtruleInclude == 0
 		}
@@ -51,14 +51,17 @@ func ParseFilterRules(rules []string) (*filterRuleList, error) {
 		if fr.flag&filtruleWild != 0 {
 			return nil, fmt.Errorf("wildcard filter rules not yet implemented: %q", line)
 		}
+		if fr.flag&filtruleClearList != 0 || strings.HasPrefix(fr.pattern, "/") {
+			return nil, fmt.Errorf("anchored and list-clearing filter rules not yet implemented: %q", line)
+		}
 	}
 	return &l, nil
 }
 
 // Matches reports whether the first rule matching name is an exclude rule.
 // A receiver uses it to protect excluded entries from --delete.
-func (l *filterRuleList) Matches(name string) bool {
-	return l.matches(name)
+func (l *filterRuleList) Matches(name string, isDir bool) bool {
+	return l.matches(name, isDir)
 }
 
 // exclude.c:recv_filter_list
@@ -89,6 +92,9 @@ func RecvFilterList(c *rsyncwire.Conn) (*filterRuleList, error) {
 		if fr.flag&filtruleWild != 0 {
 			return nil, fmt.Errorf("wildcard filter rules not yet implemented: %q", line)
 		}
+		if fr.flag&filtruleClearList != 0 || strings.HasPrefix(fr.pattern, "/") {
+			return nil, fmt.Errorf("anchored and list-clearing filter rules not yet implemented: %q", line)
+		}
 	}
 	return &l, nil
 }
@@ -106,7 +112,10 @@ type filterRule struct {
 }
 
 // exclude.c:rule_matches
-func (fr *filterRule) matches(name string) bool {
+func (fr *filterRule) matches(name string, isDir bool) bool {
+	if fr.flag&filtruleDirectory != 0 && !isDir {
+		return false // a trailing slash restricts the rule to directories
+	}
 	if fr.flag&filtruleWild != 0 {
 		panic("wildcard filter rules not yet implemented")
 	}
